@@ -1,6 +1,6 @@
 (* C03 suite glue: a case is one HISTORY of Bytes<GuestAddress> operations on one guest memory.
    case:  kind(0 GuestMemoryMmap, 1 MockMem) mode [starts] [lens] [initial bytes of all regions, concatenated]
-          then per operation:  opcode addr count [data]
+          then per operation:  opcode addr count [data]   (opcodes 12/13: data = chunk :: source)
    obs :  per operation:       k v e1 e2 [data] [bytes of all regions after the step, concatenated] *)
 From VM Require Import Prelude.MachInt Prelude.Outcome Prelude.Tok Impl.Address Impl.Guest Spec.C03.
 
@@ -44,11 +44,11 @@ Definition step_C03 (m : mode) (M : mem) (op : bop) : mem * sobs :=
   | BLoad sz a =>
       match gm_load find_lin M sz a with
       | Val (inl b) => (M, ob 1 0 0 0 b M) | Val (inr e) => (M, ob_err e [] M) | _ => (M, ob_panic M) end
-  | BReadVolFrom src cnt a =>
-      match gm_read_volatile_from find_lin m M a src cnt with
+  | BReadVolFrom ch src cnt a =>
+      match gm_read_volatile_from find_lin m M a ch src cnt with
       | Val ((M', rest), r) => (M', ob_count r rest M') | _ => (M, ob_panic M) end
-  | BReadExactVolFrom src cnt a =>
-      match gm_read_exact_volatile_from find_lin m M a src cnt with
+  | BReadExactVolFrom ch src cnt a =>
+      match gm_read_exact_volatile_from find_lin m M a ch src cnt with
       | Val ((M', rest), r) => (M', ob_unit r rest M') | _ => (M, ob_panic M) end
   | BWriteVolTo dst cnt a =>
       match gm_write_volatile_to find_lin m M a dst cnt with
@@ -70,14 +70,21 @@ Definition bop_of (opc addr cnt : N) (d : list N) : option bop :=
   match opc with
   | 0 => Some (BWrite d addr) | 1 => Some (BRead d addr) | 2 => Some (BWriteSlice d addr)
   | 3 => Some (BReadSlice d addr) | 4 => Some (BWriteObj d addr) | 5 => Some (BReadObj cnt addr)
-  | 6 => Some (BStore d addr) | 7 => Some (BLoad cnt addr) | 8 => Some (BReadVolFrom d cnt addr)
-  | 9 => Some (BReadExactVolFrom d cnt addr) | 10 => Some (BWriteVolTo d cnt addr)
-  | 11 => Some (BWriteAllVolTo d cnt addr) | _ => None end.
+  | 6 => Some (BStore d addr) | 7 => Some (BLoad cnt addr) | 8 => Some (BReadVolFrom W64 d cnt addr)
+  | 9 => Some (BReadExactVolFrom W64 d cnt addr) | 10 => Some (BWriteVolTo d cnt addr)
+  | 11 => Some (BWriteAllVolTo d cnt addr)
+  (* 12 / 13: the source hands out at most chunk bytes per call; data = chunk :: source bytes *)
+  | 12 => match d with ch :: src => Some (BReadVolFrom ch src cnt addr) | [] => None end
+  | 13 => match d with ch :: src => Some (BReadExactVolFrom ch src cnt addr) | [] => None end
+  | _ => None end.
 Definition small (x : N) : bool := x <=? 4096.
 Definition atomic_sz (x : N) : bool := (x =? 1) || (x =? 2) || (x =? 4) || (x =? 8).
 Definition op_guard (opc cnt : N) (d : list N) : bool :=
   small cnt &&
-  match opc with 6 => atomic_sz (N.of_nat (length d)) | 7 => atomic_sz cnt | _ => true end.
+  match opc with
+  | 6 => atomic_sz (N.of_nat (length d)) | 7 => atomic_sz cnt
+  | 12 | 13 => match d with ch :: _ => 0 <? ch | [] => false end
+  | _ => true end.
 Fixpoint parse_ops (l : list tok) (fuel : nat) {struct fuel} : option (list bop) :=
   match fuel with O => None | S fu =>
   match l with
